@@ -98,6 +98,45 @@ def detect(name, checks, resetup=True):
 if __name__ == "__main__":
     if sys.argv[1] == "verify":
         verify(sys.argv[2], sys.argv[3])
+    elif sys.argv[1] == "harmless":
+        # harmless NAME SRC_DIR [checks...]: a behaviour-preserving rewrite (patch.diff + meta.json in SRC_DIR) is
+        # stored as /verif/harmless/NAME, applied to /repo, the suite and every check run, and undone;
+        # every check must exit 0
+        name, srcd = sys.argv[2], sys.argv[3]
+        checks = sys.argv[4:] or ["C%02d" % i for i in range(1, 17)]
+        dst = os.path.join(V, "harmless", name)
+        os.makedirs(dst, exist_ok=True)
+        for f in ("patch.diff", "meta.json"):
+            shutil.copy(os.path.join(srcd, f), os.path.join(dst, f))
+        meta = json.load(open(os.path.join(dst, "meta.json")))
+        rc, o = sh("git status --porcelain", "/repo")
+        if o.strip():
+            print("/repo is not clean"); sys.exit(2)
+        rc, o = sh("git apply %s" % os.path.join(dst, "patch.diff"), "/repo")
+        if rc != 0:
+            print(name, "patch does not apply:", o); sys.exit(2)
+        saved = {f: open(os.path.join(V, "evidence", f)).read() for f in os.listdir(os.path.join(V, "evidence")) if f.endswith(".json")}
+        res = {}
+        try:
+            rc, o = sh("go build ./... && go test -count=1 . ./cmd/... ./parser/...", "/repo")
+            meta["suite"] = "pass" if rc == 0 else "FAIL"
+            for c in checks:
+                rc, o = sh("./check %s" % c, V, timeout=1800)
+                viol = [l for l in o.split("\n") if l.startswith("VIOLATION")]
+                notes = [l[:300] for l in o.split("\n") if l.startswith("NOTE")]
+                res[c] = dict(exit=rc, violation_lines=viol[:3], notes=notes[:2])
+                if viol:
+                    pth = viol[0].split("replay=")[1].split()[0]
+                    if os.path.exists(pth):
+                        r = json.load(open(pth))
+                        res[c]["replay"] = {k: (v if not isinstance(v, str) else v[:400]) for k, v in r.items() if k in ("kind", "oracle", "correspondence", "input_text", "verdict", "what")}
+                print(name, c, "exit", rc, viol[:1], flush=True)
+        finally:
+            sh("git checkout -- .", "/repo")
+            for f, t in saved.items():
+                open(os.path.join(V, "evidence", f), "w").write(t)
+        meta["checks"] = res
+        json.dump(meta, open(os.path.join(dst, "meta.json"), "w"), indent=1)
     elif sys.argv[1] == "detect-many":
         # detect-many NAME... : each change against the check of its own property; one re-setup at the end
         try:
